@@ -118,7 +118,7 @@ def w3_traces(F, R, tadt, cadt, im):
                     else:
                         cands = [e[3][0]] + ([e[5][0]] if len(e) > 5 and e[5] and e[5][0] is not None else [])
                         for c in cands:
-                            for x in subterms(c):
+                            for x in ptr_subterms(c):
                                 if x[0] == 'loc':
                                     for pp in x[2]:
                                         if pp[0] == 'f' and len(pp) > 2 and pp[2] == tadt:
